@@ -52,6 +52,10 @@ def cases(ctx):
         wide = j % 5 == 4
         c = gen.rand_circuit(r, n_in=r.randint(2, 6), n_gates=r.randint(3, 14), max_fanin=5 if wide else 2, consts=0.15 if r.random() < 0.3 else 0.0,
                              extra_out=0.0 if single else 0.25, out_is_input=0.0 if single else 0.3, loaded_in_out=0.0 if single else 0.25)
+        if wide and len(c.nodes()) >= 5 and r.random() < 0.7:
+            # a gate with 5-7 operands (odd and even counts: the fan-in limiter folds them in rounds)
+            ops = r.sample(sorted(c.nodes()), min(len(c.nodes()), r.choice([5, 5, 6, 7])))
+            c.add("w5", r.choice(["and", "or", "xor", "nand", "nor", "xnor"]), fanin=ops, output=True)
         if single:
             outs = sorted(c.outputs())
             keep = outs[-1]
